@@ -230,6 +230,24 @@ def run(ctx, rep):
     rep.ob(looks_up or bool(retract), 'R17.3', 'symbols::Context::define', 'redeclaration after a failed run',
            'every `stel` takes a fresh slot at compile time and nothing takes the declaration back when the line fails at run time before '
            'its store: after `stel x = 1` and a failing `stel x = 1/0`, `x` names the new, never-stored slot instead of still being 1', cd.loc())
+    # what a line stored stays stored: the session's variables are only ever grown or overwritten slot by slot
+    rep.rule('R17.5', 'the persistent fields of the VM are never cut back (a failing line keeps the assignments it completed)')
+    SHRINK_ = ('::truncate', '::clear', '::pop', '::remove', '::swap_remove', '::drain', '::split_off', '::retain', '::set_len', 'mem::take', 'mem::replace', 'mem::swap')
+    nshr = 0
+    for f_ in F.all_fns:
+        if f_.crate != 'lib':
+            continue
+        for b_, t_ in f_.calls():
+            n_ = callee_name(t_)
+            if n_.endswith(SHRINK_) and t_['args']:
+                a0 = str(sym(f_, t_['args'][0]))
+                for pf in PERSISTENT:
+                    if "'%s'" % pf in a0 and 'vm::VM' in (f_.j.get('impl_self') or f_.path):
+                        nshr += 1
+                        rep.bad('R17.5', f_.path, '%s on VM.%s' % (n_.split('::')[-1], pf),
+                                'a persistent field of the VM is cut back: values stored by earlier (or by the failing) line are dropped while the retained compiler still maps their names to those slots', span_loc(t_['span']))
+    if not nshr:
+        rep.good('R17.5', 'vm::VM', 'persistent fields only grow', 'no truncate/clear/pop/remove/drain/take on %s anywhere in the VM' % sorted(PERSISTENT), 'src/vm.rs')
     # ---- R17.4 ---------------------------------------------------------------------------------
     # (globals, per-run collector): globals persist in the VM, heap objects they point to are owned by the GC local of run()
     gcs_local = any(callee_name(t) == 'gc::GC::new' for b, t in fn.calls())
